@@ -182,6 +182,11 @@ var c14Binds = []struct{ key, action string }{
 	{"alt-9", "bell"},
 	{"alt-0", "execute-silent(EX 5 {})"},
 	{"ctrl-o", "execute(EX 6 {} {q})"},
+	// commands that get the current line / the selection through a temporary file
+	{"ctrl-r", "reload(GEN 1 {f})"},
+	{"ctrl-s", "reload(GEN 2 {+f})+reload(GEN 1 {f})"},
+	{"ctrl-x", "execute-silent(EX 7 {+f})"},
+	{"ctrl-v", "transform(TR 2 {f})"},
 }
 
 func genHostileInput(r *zsim.Rng, cols, rows int) sysEvent {
